@@ -129,6 +129,14 @@ OnStep(r, ev) ==
      /\ IF ok \/ dev # "" \/ (\E x \in alts : OutMatch(evx, x)) THEN TRUE
         ELSE V("control", <<"the interpreter answered", ev.out, ev.arg, ev.err, "for", ev.line, "at index", ev.idx,
                             "the specification allows", UNION {x.outs : x \in alts}>>)
+     \* printing and the prompt never change the machine (C17, C20): a step that does not start from the state the
+     \* previous step left, directly after a print statement or a prompt command, is theirs
+     /\ IF ok \/ dev # "" \/ l = 1 THEN TRUE
+        ELSE IF Rec[l - 1].ev = "message" /\ Rec[l - 1].kind = "print"
+             THEN V("printframe", <<"the instruction after a print statement did not start from the state before it:", Explain(d.m, evx, Exec(d.m, ins, ev.idx))>>)
+        ELSE IF Rec[l - 1].ev = "cmd"
+             THEN V("promptframe", <<"the instruction after a prompt did not start from the state before it:", Explain(d.m, evx, Exec(d.m, ins, ev.idx))>>)
+        ELSE TRUE
      /\ Check(r.msg = << >>, "banner", <<"message not shown", r.msg>>)
      /\ run' = [r EXCEPT !.d = IF ev.out \in Outcomes THEN d2 ELSE [d EXCEPT !.phase = "done", !.outfree = TRUE], !.msg = msg]
 
